@@ -126,31 +126,34 @@ class EValue(PyEcoreValue):
             couple = (owner, efeature)
             if hasattr(value, '_inverse_rels'):
                 if hasattr(previous_value, '_inverse_rels'):
-                    previous_value._inverse_rels.remove(couple)
+                    previous_value._inverse_rels.discard(couple)
                 value._inverse_rels.add(couple)
             elif value is None and hasattr(previous_value, '_inverse_rels'):
-                previous_value._inverse_rels.remove(couple)
+                previous_value._inverse_rels.discard(couple)
             return
 
         eOpposite = efeature.eOpposite
-        # if we are in an 'unset' context
         opposite_name = eOpposite._name
+        # the previous partner releases its end, if it still points to us
+        if previous_value is not None and previous_value is not value:
+            opposite = previous_value.__getattribute__(opposite_name)
+            if eOpposite.many:
+                if owner in opposite:
+                    opposite.remove(owner, update_opposite=False)
+            elif opposite is owner:
+                previous_value.__dict__[opposite_name] \
+                              ._set(None, update_opposite=False)
         if value is None:
-            if previous_value is None:
-                return
-            if eOpposite.many:
-                object.__getattribute__(previous_value, opposite_name) \
-                      .remove(owner, update_opposite=False)
-            else:
-                object.__setattr__(previous_value, opposite_name, None)
+            return
+        opposite = value.__getattribute__(opposite_name)
+        if eOpposite.many:
+            opposite.append(owner, update_opposite=False)
         else:
-            previous_value = value.__getattribute__(opposite_name)
-            if eOpposite.many:
-                previous_value.append(owner, update_opposite=False)
-            else:
-                # We disable the eOpposite update
-                value.__dict__[opposite_name]. \
-                      _set(owner, update_opposite=False)
+            # the new partner is taken away from its previous partner
+            if opposite is not None and opposite is not owner:
+                opposite.__dict__[efeature._name] \
+                        .remove_or_unset(value, update_opposite=False)
+            value.__dict__[opposite_name]._set(owner, update_opposite=False)
 
 
 class ECollection(PyEcoreValue):
@@ -187,13 +190,21 @@ class ECollection(PyEcoreValue):
             return
 
         opposite_name = eOpposite._name
-        if eOpposite.many and not remove:
-            owner.__getattribute__(opposite_name).append(new_value, False)
-        elif eOpposite.many and remove:
-            owner.__getattribute__(opposite_name).remove(new_value, False)
+        opposite = owner.__getattribute__(opposite_name)  # Force load
+        if eOpposite.many:
+            if not remove:
+                opposite.append(new_value, False)
+            elif new_value in opposite:
+                opposite.remove(new_value, False)
+        elif remove:
+            if opposite is new_value:
+                owner.__dict__[opposite_name] \
+                     ._set(None, update_opposite=False)
         else:
-            new_value = None if remove else new_value
-            owner.__getattribute__(opposite_name)  # Force load
+            # the value is taken away from its previous partner
+            if opposite is not None and opposite is not new_value:
+                opposite.__dict__[self.feature._name] \
+                        .remove_or_unset(owner, update_opposite=False)
             owner.__dict__[opposite_name] \
                  ._set(new_value, update_opposite=False)
 
